@@ -38,7 +38,7 @@ INVOKES = [
     ("echo", "full"), ("bad", "err"), ("bad", "nilidx"), ("bad", "nofn"),
     ("nomod", "f"), ("bad", "ret_table"), ("bad", "ret_nil"), ("bad", "pperr"),
     ("bad", "pploop"), ("bad", "deep"), ("bad", "errobj"),
-]
+] + [("bad", f) for f in lua_modules.MISUSE_FNS]
 
 
 def invoke_strategy(sub):
@@ -299,6 +299,14 @@ def shard(idx, nshards, seed, n, known, quick):
     for i, (t, o) in enumerate(work):
         if i % nshards == idx:
             one(t, o, "fixed")
+    # every frame-API misuse (raw / caught by the module / caught and followed
+    # by a good callback), 120 flat repetitions on one page
+    for i, f in enumerate(lua_modules.MISUSE_FNS):
+        if i % nshards == idx:
+            one("{{#invoke:bad|" + f + "}}", dict(base, reps=120), "misuse")
+            if not quick or i % 3 == seed % 3:
+                one("a{{tb|{{#invoke:bad|" + f + "}}}}",
+                    dict(base, api="parse_expand_all", reps=40), "misuse")
     if idx == 0:
         # one timing-out invocation (costs >= 1 s per repetition)
         one("{{#invoke:bad|loop}}a{{#invoke:echo|f|x}}",
